@@ -13,7 +13,7 @@ SPEC = dict(
                 "(join_emitted_plus_old_eq_queued_plus_final); from a fresh state every matching pair exactly once "
                 "(set: 1 iff both arrived, output duplicate-free; multiset: product of occurrence counts); the join is "
                 "fused; the new-tick future drains exactly the arrivals whatever the pendings and its enumeration is "
-                "the join of the tables in either orientation; new-tick output is a permutation of the incremental output. "
+                "the join of the tables in either orientation; new-tick output is a permutation of the incremental output; join_final_state + join_persisted_then_new: over any number of ticks on persisted state, emitted + join(initial tables) = join(tables holding all arrivals of all ticks). "
                 "Tie: the harness drives the real symmetric_hash_join exactly as dfir_lang's join/join_multiset operators "
                 "do (fuse, is_new_tick flag, clear() per persistence) over multi-tick histories with scripted pulls, "
                 "keys {0,1}, values {0,1,2}; every poll answer, len() and table dump is diffed against the compiled model; "
@@ -21,7 +21,7 @@ SPEC = dict(
     level_note=("Trusted: Lean kernel + propext/Classical.choice/Quot.sound; FxHashMap modelled as an association list "
                 "(hash iteration order canonicalised by a stable sort on the key); NewTickJoinIter's nested-loop state "
                 "machine is modelled by the list it enumerates; SmallVec/VecDeque as lists; Cow/clone erased; "
-                "multi-tick histories are covered by the arbitrary-starting-state invariant applied tick by tick (no separate multi-tick composition theorem yet)."),
+                "multi-tick theorems compose ticks that are driven to their end (a tick abandoned early is covered by the arbitrary-starting-state invariant only)."),
     trusted_base=["FxHashMap as association list; hash-order dependent output compared after a stable sort by key",
                   "NewTickJoinIter modelled denotationally (the list its nested loops enumerate)",
                   "SmallVec / VecDeque / Cow modelled as lists / values"],
